@@ -206,6 +206,28 @@ def r3_table(ctx, F):
             ok = any("self.%s" % tog in t and lab == 0 for (t, lab) in g)
         ctx.check("R3-handle-table", "%s/toggle" % nm, ok, "%s does not release the handle exactly when `%s` is off" % (nm, tog), loc=m.loc())
 
+    # directory-position records exist only in opendir mode: where no RELEASEDIR ever arrives (runtime no_opendir, which is not the
+    # configured flag: init also sets it when the backend sits below a vfs), nothing would remove them again
+    n = 0
+    for fb in F.fns.values():
+        if not in_passthrough(fb.key) or fb.self_adt == HMAP:
+            continue
+        for c in live_calls(fb):
+            if c.name == "set_cookie" and c.self_adt == HMAP or (c.name == "set_cookie" and (c.callee or "").startswith("passthrough::")):
+                n += 1
+                fv = vf.VF(fb, inline_depth=0)
+                g = [(vf.render(cond, fb, short=True), lab) for (cond, lab, u) in fv.guards(c.bb)]
+                need = ("Atomic::load(self.no_opendir, Relaxed)", 0)
+                ok = need in g
+                if not ok:
+                    # or every caller of this helper tests it
+                    sites = [(ob, oc) for ob in F.fns.values() if in_passthrough(ob.key) for oc in live_calls(ob) if oc.callee == fb.key]
+                    ok = bool(sites) and all(need in [(vf.render(cond, ob, short=True), lab) for (cond, lab, u) in vf.VF(ob, inline_depth=0).guards(oc.bb)] for (ob, oc) in sites)
+                ctx.check("R3-handle-table", "cookie-record/%s/opendir-mode-only" % fb.name, ok,
+                          "%s stores a directory-position record without testing the negotiated no_opendir state (guards: %s): with no_opendir in force "
+                          "there is no RELEASEDIR to remove it" % (fb.name, [t[:60] for (t, l) in g][:3]), loc=c.loc())
+    ctx.check("R3-handle-table", "cookie-record/writers", n >= 1, "no caller of HandleMap::set_cookie found", loc=b.loc())
+
 
 def r4_temporaries(ctx, F):
     # callers of HandleMap::insert
@@ -269,6 +291,6 @@ META = {
     "text": "Decides: every raw descriptor obtained in passthrough code is owned or closed on each non-error path; a File over a borrowed descriptor "
             "cannot be dropped (no exit before ManuallyDrop); the handle table removes/hands out a handle only after comparing its inode; "
             "do_release/destroy sequences; only do_open/create insert handles, with counter-drawn numbers, under the negotiated toggles; "
-            "per-request temporaries never enter the table.",
+            "per-request temporaries never enter the table; directory-position records are stored only under the negotiated (runtime) opendir mode.",
     "note": "Not decided: descriptor counts after arbitrary histories or injected EMFILE; liveness of inode objects (C08).",
 }
